@@ -154,6 +154,7 @@ type Step struct {
 	N         int        `json:"n,omitempty"`
 	Items     []AnsItem  `json:"items,omitempty"`
 	Container bool       `json:"container,omitempty"`
+	Nested    bool       `json:"nested,omitempty"` // answer: the container is itself wrapped into an outer container
 	Push      *PushSpec  `json:"push,omitempty"`
 	Salt      int64      `json:"salt,omitempty"`
 	Hold      *HoldSpec  `json:"hold,omitempty"`
